@@ -55,6 +55,9 @@ func opKeyUse(a []string) string {
 	}
 	var sb strings.Builder
 	sb.WriteString("dec=ok " + dumpKey(&k))
+	if acceptedWithTaggedLabel("key", data) {
+		sb.WriteString(" TAGGED-LABEL")
+	}
 	before := dumpKey(&k)
 	pub, err := k.PublicKey()
 	sb.WriteString(" pub=" + plainErr(err))
